@@ -441,6 +441,59 @@ def container_mutations(ctx, f, is_container):
     return out
 
 
+def unpacked_field(ctx, f, name):
+    """(base expression, field name) when the local `name` is defined once, by unpacking `a, b = <base>` where <base> reads an entry of
+    a table `self.<attr>[...]` whose stores (anywhere in the class family) are all constructions of one NamedTuple of the program:
+    position i of the unpacking is field i of that record.  None otherwise."""
+    from ..engine import local_defs, _RECORDS
+    ds = local_defs(f, name)
+    if len(ds) != 1 or not (isinstance(ds[0], tuple) and ds[0][0] == "unpack"):
+        return None
+    base, idx = ds[0][1], ds[0][2]
+    tab = base.value if isinstance(base, ast.Subscript) else None
+    if not (isinstance(tab, ast.Attribute) and isinstance(tab.value, ast.Name) and tab.value.id == "self"):
+        return None
+    recs = set()
+    for g, n, k in ctx.writers(tab.attr):
+        for st in ast.walk(n) if isinstance(n, ast.AST) else []:
+            if isinstance(st, ast.Assign) and any(isinstance(t_, ast.Subscript) and isinstance(t_.value, ast.Attribute) and t_.value.attr == tab.attr
+                                                  for t_ in st.targets):
+                v = st.value
+                nm = (v.func.id if isinstance(v.func, ast.Name) else v.func.attr if isinstance(v.func, ast.Attribute) else None) \
+                    if isinstance(v, ast.Call) else None
+                recs.add(nm if nm in _RECORDS and _RECORDS[nm][1] else None)
+    if len(recs) != 1 or None in recs:
+        return None
+    fields = _RECORDS[next(iter(recs))][0]
+    return (base, fields[idx]) if idx < len(fields) else None
+
+
+def drop_implied(atoms):
+    """the atoms without those that follow from another one: `x == Enum.A` true makes `x == Enum.B` false (B another member of the
+    same enumeration) - an elif chain over the members adds such atoms without adding a condition"""
+    def enum_of(x):
+        pre = x.rsplit(".", 1)[0] if "." in x else None
+        return pre if pre is not None and pre.split(".")[-1][:1].isupper() and "(" not in x and "[" not in x else None
+    pos = {}
+    for a in atoms:
+        if a[0] == "eq" and a[3] is True:
+            for var, const in ((a[1], a[2]), (a[2], a[1])):
+                if enum_of(const):
+                    pos.setdefault(var, set()).add(const)
+    out = set()
+    for a in atoms:
+        if a[0] == "eq" and a[3] is False:
+            implied = False
+            for var, const in ((a[1], a[2]), (a[2], a[1])):
+                e = enum_of(const)
+                if e and any(c != const and enum_of(c) == e for c in pos.get(var, ())):
+                    implied = True
+            if implied:
+                continue
+        out.add(a)
+    return out
+
+
 def value_pred(f, pred):
     """text -> bool: the text of an atom's operand stands for a value `pred` accepts - written out, or a local that is defined
     as such a value (so `resource > lur` and `int(result[attr]) > rec.largest_update_resource` read the same)"""
